@@ -949,22 +949,26 @@ def link_partial_views(w, cfg):
 # (added after the seeded change C11_4 was missed: a data link that REPLACES the thermal-condition object of a stream
 #  while the stream keeps its indexer - and with it every view the indexer has cached for the old condition object)
 
-JOIN_OPS = ['T@ms', 'P@last', 'T@last', 'wvol@last', 'wvol@first', 'wvol@ms', 'wmass@last', 'wmol@ms', 'F_vol@last', 'L/min@last', 'phases@ms']
+JOIN_OPS = ['T@ms', 'P@last', 'T@last', 'wvol@last', 'wvol@first', 'wvol@ms', 'wmass@last', 'wmol@ms', 'L/min@last', 'phases@ms']
+JOIN_OPS_EXTRA = ['F_vol@last']          # thorough only (the multi-phase total volume after scaling is expensive for z3)
 
 
 def joined_configs(tier):
     out = []
 
-    def add(order, touch, seq):
-        out.append({'name': f"join={'+'.join(order)};touch={touch};ops=" + ('>'.join(seq) or '-'), 'order': list(order), 'touch': touch, 'ops': list(seq)})
+    def add(order, touch, seq, flows=None):
+        # flows of the streams after the first (which holds every chemical): 'maybe' = Water, and Ethanol present or not (a fork);
+        # 'sparse' = Water only
+        flows = flows or ('maybe' if tier != 'quick' or not any(o[0] in 'wL' for o in seq) else 'sparse')
+        out.append({'name': f"join={'+'.join(order)};touch={touch};flows={flows};ops=" + ('>'.join(seq) or '-'), 'order': list(order), 'touch': touch,
+                    'ops': list(seq), 'flows': flows})
     if tier == 'quick':
         for order in (('g', 'l'), ('l', 'g')):
             for touch in ('views-before', 'none-before'):
                 add(order, touch, ())
-                for op in JOIN_OPS:
+                for op in (JOIN_OPS if touch == 'views-before' else ['T@ms', 'wvol@last', 'wvol@ms']):
                     add(order, touch, (op,))
-            for seq in [('T@ms', 'wvol@last'), ('wvol@last', 'P@last'), ('T@ms', 'L/min@last'), ('wvol@ms', 'T@last'), ('phases@ms', 'wvol@last'),
-                        ('T@ms', 'F_vol@last')]:
+            for seq in [('T@ms', 'wvol@last'), ('wvol@last', 'P@last'), ('T@ms', 'L/min@last'), ('wvol@ms', 'T@last'), ('phases@ms', 'wvol@last')]:
                 add(order, 'views-before', seq)
         add(('s', 'l', 'g'), 'views-before', ('T@ms',))
     else:
@@ -975,6 +979,8 @@ def joined_configs(tier):
                         if len(order) == 3 and n == 2 and touch != 'views-before':
                             continue
                         add(order, touch, seq)
+                for seq in [('F_vol@last',), ('T@ms', 'F_vol@last'), ('F_vol@last', 'P@last')]:
+                    add(order, touch, seq)
     return out
 
 
@@ -996,8 +1002,11 @@ def joined_streams(w, cfg):
     th = package(w, 'A')
     order = cfg['order']
     parts = []
+    one_chemical_last = any(op.startswith('F_vol') for op in cfg['ops'])
     for n, ph in enumerate(order):
-        p, _ = mk(w, f'p{n}', ph, 'A', 'all-pos' if n == 0 else 'pos+maybe', th=th)
+        # (a total is set on a stream of one chemical: with two, the scaled flows are a quotient of sums that z3 cannot decide in time)
+        flows = 'all-pos' if n == 0 else 'first-pos' if (one_chemical_last and n == len(order) - 1) or cfg['flows'] == 'sparse' else 'pos+maybe'
+        p, _ = mk(w, f'p{n}', ph, 'A', flows, th=th)
         parts.append(p)
     Ts = [p.T for p in parts]; Ps = [p.P for p in parts]
     distinct(w, Ts); distinct(w, Ps)
